@@ -53,13 +53,17 @@ RULE_TEXT = {
     "E4": "the closure built for Effect::Action dispatches the captured action once through the dispatcher it is given",
     "E5": "dispatch_task/dispatch_thunk submit the task on every path; a None pool slot is acceptable only if stop() waits for the reducer loop before emptying the slot",
     "E6": "the reducer thread never dispatches or enqueues into its own queue synchronously",
+    "Q10": "no body running synchronously on the reducer thread constructs an Effect: a dequeued action is never re-posted by the store",
+    "E8": "the store does not cap its worker pool below reducer + 2 workers (constant sizes only; the machine default is accepted)",
     "E7": "on the reducer thread the effects vector is only pushed to, measured, shown to the hooks and drained by the hand-over loop",
     "Q7": "the consumer's receive call returns crossbeam's recv() result directly, without buffering or re-ordering",
+    "SU6": "no user callback runs between reading the subscriber list and the delivery loop of the same pass",
     "SU5": "the shutdown release (unsubscribe-all + clear) is reachable only from the end of the reducer thread, never from client-callable entry points",
     "Q9": "a dispatch entry point returns Err only when the sender slot is empty or the enqueue was rejected; the sender lock is taken with the blocking lock()",
     "MW5": "with a non-empty middleware list every action reaches each hook loop (before_dispatch: every notifying action)",
     "SE5": "last_value is touched only by on_notify/new; the selector subscriber has no lifecycle-dependent state",
     "IN4": "exported subscriber types change no state in on_unsubscribe",
+    "IN5": "callback methods of exported (shareable) types wait for their own locks: no try_lock whose failure path depends on another store",
     "LC3": "every on_unsubscribe call runs with the subscriber-list lock held in its calling context",
     "BU1": "each builder setter returns self and writes only its own option with values from its own parameter (with_* replaces, add_* pushes)",
     "BU2": "build() fails with InitError exactly on: no reducer and not without_reducer, empty name, capacity 0; otherwise calls the constructor",
@@ -148,7 +152,8 @@ PROPS = {
                    r(Q.q6_sequential_consumer, only=r"event-graph|receive events|REDUCE"),
                    Q.d1_same_store_dispatcher, C.ch4_retry_identity, Q.q7_head_of_queue,
                    r(P.pi1_one_pass_per_action, only=r"receive events|count:REDUCE|single-loop:REDUCE"),
-                   r(P.pi6_action_identity, only=r"REDUCE"), r(T.st3_loop_exits, only=r"continues-only-on-action|count:|floor:")),
+                   r(P.pi6_action_identity, only=r"REDUCE"), r(T.st3_loop_exits, only=r"continues-only-on-action|count:|floor:"),
+                   Q.q10_store_fabricates_no_effect),
         "explanation": "Static decision: a dispatch that returns Ok has already appended its action to the single FIFO queue on the caller's thread (Q5); only the consumer's head-recv and the DropOldest head-pop remove items and a bounced item is re-appended (Q2,CH4); the consumer reduces exactly the item it just received, one at a time, in receive order (Q1,Q6,PI1,PI6,ST3); dispatchers handed to thunks/middleware belong to the same store (D1). Order then follows from crossbeam's linearizable FIFO (trusted).",
         "not_decided": ["linearizability / FIFO of the bounded channel (trusted)"],
     },
@@ -158,7 +163,8 @@ PROPS = {
                    r(S.su1_mutators, drop=r"removal:clear|floor:clear"), P.n1_flag, P.n2_guard, P.n3_payload,
                    r(M.mw_table, only=r"(flow|flags):before_dispatch|arm-present:before_dispatch|MW2:.*before_dispatch|count:before_dispatch"),
                    r(Q.q6_sequential_consumer, only=r"event-graph|receive events|NOTIFY"),
-                   E.e6_reducer_never_enqueues, r(PI3_NOTIFY, name="PI3")),
+                   E.e6_reducer_never_enqueues, r(PI3_NOTIFY, name="PI3"),
+                   r(S.su2_unsubscribe, only=r"compares-element-with-own-subscriber|identity-test|removes-exactly-the-identical-element|floor")),
         "explanation": "Static decision: one notify decision per reduced action from the last reducer's answer (N1,N2), one forward pass over a snapshot of the registration-ordered list (SU1,PI3) with that action and the chain's result state (N3,PI6), suppressed only by a before_dispatch DoneAction (MW table, MW2); nothing on the reducer thread between reduce and notify can block on or fail through the store's own queue (E6).",
         "not_decided": ["chains mixing Dispatch and Keep beyond 'last decides'"],
     },
@@ -167,20 +173,22 @@ PROPS = {
                    r(C.ch2_result_tells_enqueued, only=r"err-means-not-enqueued|ok-means-enqueued:BlockOnFull|floor"),
                    S.su3_shutdown_release, T.st1_stop_is_close_plus_join, T.st2_closed_means_err, T.st3_loop_exits,
                    T.st4_callbacks_live_in_the_loop, T.st5_idempotent, r(C.dr1_result_mapping, only=r"result-maps-Ok|result-ignored|floor"),
-                   r(X.ch_channeled_release, name="R2")),
+                   r(X.ch_channeled_release, name="R2"), S.lc3_release_under_list_lock),
         "explanation": "Static decision: accepted actions are enqueued under the sender lock (Q3,CH2), close() empties the slot under that lock before Exit is enqueued (Q4), the loop ends only on Exit/disconnect and then releases every subscriber, which joins channeled threads after disconnecting them (ST3,SU3,R2), stop() = close + join of the pool on every path without holding a store lock (ST1), closed => Err without effect and Err only when nothing was enqueued (ST2,CH2,DR1), callbacks exist only inside the joined loop (ST4), second close/stop do nothing (ST5).",
         "not_decided": ["the 3 s timeout", "two racing shutdowns", "shutdown_join semantics (trusted)"],
     },
     "C05": {
         "rules": R(r(_ch1_block, name="CH1"), r(_ch2_block, name="CH2"), C.ch5_capacity, Q.q2_dequeue_sites,
-                   B.b1_capacity_zero_rejected, Q.q5_synchronous_enqueue, Q.q9_dispatch_fails_only_when_closed),
+                   B.b1_capacity_zero_rejected, Q.q5_synchronous_enqueue, Q.q9_dispatch_fails_only_when_closed,
+                   Q.q3_enqueue_under_sender_lock,
+                   r(DL.l2_wait_for, only=r"consumer-needs:.*held=StoreImpl\.sender-slot|floor")),
         "explanation": "Static decision: the dispatch queue is bounded(capacity) with the configured value unmodified (CH5) and >= 1 (B1); the BlockOnFull arm consists of exactly one unbounded blocking send (CH1,CH2) executed synchronously by the caller (Q5); nothing but the consumer removes items (Q2). Waiting/wake-up timing is crossbeam's (trusted).",
         "not_decided": ["'resumes as soon as' / eventual progress (liveness of crossbeam)", "the capacity bound itself is crossbeam's guarantee"],
     },
     "C06": {
         "rules": R(r(_ch1_drop, name="CH1"), C.ch0_never_disconnected, C.ch2_result_tells_enqueued, C.ch3_drop_accounting, C.ch4_retry_identity,
                    r(Q.q3_enqueue_under_sender_lock, drop=r":StoreImpl::close$"), r(C.dr1_result_mapping, only=r"result-maps-Err|result-ignored|floor"),
-                   r(ME.me7_monotone, only=r"action_dropped")),
+                   r(ME.me7_monotone, only=r"action_dropped"), r(C.ch5_capacity, only=r"capacity-(unmodified|modified|passed-through|from-field):|only-bounded|count:|floor")),
         "explanation": "Static decision by exhaustive path enumeration of the send wrapper: drop arms contain only non-blocking queue operations (CH1); Ok iff enqueued (CH2); each popped/rejected action is counted by exactly one action_dropped call (CH3; the counter is one fetch_add, ME7); DropOldest pops the head only on Full and re-sends the bounced item (CH4) with producers serialised by the sender lock (Q3); Dispatcher::dispatch maps Err to Err (DR1).",
         "not_decided": ["which action a concurrent consumer makes the victim (left open by the statement)"],
         "exhaustive": True,
@@ -190,19 +198,20 @@ PROPS = {
                    r(P.pi1_one_pass_per_action, only=r"receive events|single-loop"),
                    r(P.pi2_phase_order, only=r"order:(HOOK|REDUCE|NOTIFY)[^<]*<(HOOK|REDUCE|NOTIFY)"), P.pi3_full_forward_iteration, T.st4_callbacks_live_in_the_loop,
                    r(S.su1_mutators, drop=r"removal:clear|floor:clear"), S.rg1_registration_order,
-                   r(M.mw_table, only=r"flow:.*:(ContinueAction|DoneAction|Err)|count:"), M.mw5_hooks_on_every_action),
+                   r(M.mw_table, only=r"flow:.*:(ContinueAction|DoneAction|Err)|count:"), M.mw5_hooks_on_every_action,
+                   r(P.n1_flag, only=r"flag-initially-true|floor"), P.n2_guard),
         "explanation": "Static decision: one reducer context (Q1,Q6,ST4); phases in the documented order with no reverse path in the inlined event graph (PI2); each group iterated fully, forward, from the collection read under its lock inside the pass (PI3) whose mutators preserve registration order (SU1,RG1); a hook loop goes on to the next middleware after Continue/Done/Err (MW flow); the next action's callbacks come after the next receive (PI1).",
         "not_decided": ["run-time thread identity (decided as: no callback site outside the reducer thread's synchronous call tree)"],
     },
     "C08": {
-        "rules": R(P.s1_single_writer, P.s2_initial_value, r(P.pi5_write_back, only=r"written-value-is-chain-result|floor"),
+        "rules": R(P.s1_single_writer, P.s2_initial_value, r(P.pi5_write_back, only=r"written-value-is-chain-result|write-back-unconditional|floor"),
                    Q.q1_one_queue_one_consumer, r(P.pb1_publish_before_notify, only=r"NOTIFY|floor"),
-                   r(P.pi1_one_pass_per_action, only=r"receive events|at-most-once-per-pass:WRITE_STATE|count:WRITE_STATE")),
+                   r(P.pi1_one_pass_per_action, only=r"receive events|at-most-once-per-pass:WRITE_STATE|every-pass-has:WRITE_STATE|count:WRITE_STATE")),
         "explanation": "Static decision: the state cell is assigned only whole chain results by one thread in reduce order (S1,PI5,Q1,PI1), readers clone it under its lock (S1), it starts as the configured initial state (S2), and the write-back lies on every path from the receive to a subscriber call of the same pass (PB1).",
         "not_decided": [],
     },
     "C09": {
-        "rules": R(r(S.su1_mutators, drop=r"append:|floor:push"), S.su2_unsubscribe, S.su3_shutdown_release, S.su5_release_only_on_reducer_thread, S.su4_delivery_atomic_with_membership,
+        "rules": R(r(S.su1_mutators, drop=r"append:|floor:push"), S.su2_unsubscribe, S.su3_shutdown_release, S.su5_release_only_on_reducer_thread, S.su6_snapshot_right_before_delivery, S.su4_delivery_atomic_with_membership,
                    S.lc1_unsubscribe_sites, r(X.ch_channeled_release, name="R2"), r(PI3_NOTIFY, name="PI3")),
         "explanation": "Static decision: unsubscribe removes exactly the identical element of its own store's list under the list lock and releases it once (SU1,SU2); whatever is still listed at shutdown is released once and the list cleared in the same critical section on every path to the end of the reducer thread (SU3); no third release path (LC1); every listed element is visited on each notifying pass (PI3); channeled release is idempotent (R2). Delivery atomic with membership (SU4) is a known finding.",
         "not_decided": [],
@@ -210,14 +219,14 @@ PROPS = {
     "C10": {
         "rules": R(X.ch_channeled, C.ch1_arm_purity, C.ch2_result_tells_enqueued, C.ch4_retry_identity,
                    r(T.st4_callbacks_live_in_the_loop, only=r"channeled|floor"),
-                   S.lc3_release_under_list_lock,
+                   S.lc3_release_under_list_lock, T.st1_stop_is_close_plus_join,
                    r(S.su3_shutdown_release, only=r"every-exit-releases|floor:clear")),
         "explanation": "Static decision: the user's subscriber lives only in the spawned thread's delivery loop (R1,R4,ST4); the forwarder enqueues each notification once, unmodified, under its slot lock and never after release (R3); the channel wrapper never blocks under a drop policy and delivers the newest under DropOldest (CH1,CH2,CH4); release drops the sender, enqueues nothing, then joins - reached atomically with removal from unsubscribe and from the shutdown release (R2,SU2,SU3); defaults are DEFAULT_CAPACITY/BlockOnFull (R5).",
         "not_decided": ["run-time thread identity", "timing"],
     },
     "C11": {
         "rules": R(Q.d1_same_store_dispatcher, T.st1_stop_is_close_plus_join, E.e1_collect, E.e2_drain, E.e3_never_inline, E.e4_effect_action,
-                   E.e5_total_handover, E.e6_reducer_never_enqueues, E.e7_vector_untouched_between_hooks_and_drain,
+                   E.e5_total_handover, E.e6_reducer_never_enqueues, E.e7_vector_untouched_between_hooks_and_drain, E.e8_pool_not_capped,
                    r(M.mw_table, only=r"store-leaves-effects-alone|count:before_effect")),
         "explanation": "Static decision: every returned effect is collected into one per-pass vector (E1), the vector the hooks saw is drained completely with exactly one hand-over per variant (E2,MW3) and the store itself never removes effects (MW table), payloads run only inside closures submitted to the pool with no store lock held (E3), Effect::Action re-enters through the ordinary dispatch path on a worker (E4,E6) with the same store's dispatcher (D1), stop() joins the pool (ST1). Total hand-over after stop() took the pool (E5) is a known finding.",
         "not_decided": ["wall-clock non-interference of slow effects"],
@@ -226,7 +235,8 @@ PROPS = {
         "rules": R(r(P.pi6_action_identity, only=r"HOOK"), M.mw_table, M.mw5_hooks_on_every_action, P.mw1_hook_state_args,
                    r(E.e2_drain, only=r"MW3:|drain-until-empty|variant-covered|count:"), E.e7_vector_untouched_between_hooks_and_drain,
                    r(P.s1_single_writer, only=r"writers of the state cell|writer-is-reducer-thread|no-other-mutable-access"),
-                   r(P.pi2_phase_order, only=r"order:(HOOK:before_reduce<REDUCE|REDUCE<HOOK:before_effect|HOOK:before_effect<HANDOVER|HOOK:before_dispatch<NOTIFY)")),
+                   r(P.pi2_phase_order, only=r"order:(HOOK:before_reduce<REDUCE|REDUCE<HOOK:before_effect|HOOK:before_effect<HANDOVER|HOOK:before_dispatch<NOTIFY)"),
+                   r(S.rg1_registration_order, only=r"middleware")),
         "explanation": "Static decision by exhaustive path enumeration of one iteration of each of the three hook loops: 3 hooks x {Continue, Done, Break, Err} have exactly the documented control flow, flag writes and on_error calls (MW), flags start true and guard their phase (MW2), hook arguments are the documented states and action (MW1,PI6), the new state is written once, independent of the verdicts and before before_dispatch (S1,PI5,PI2), and the drained effects vector is the one the hooks saw, untouched by the store (MW3,E2).",
         "not_decided": ["whether a vetoed action still notifies (unspecified)"],
         "exhaustive": True,
@@ -240,7 +250,8 @@ PROPS = {
         "rules": R(X.it_iterator, S.su5_release_only_on_reducer_thread, P.n3_payload, P.n2_guard,
                    r(S.su3_shutdown_release, only=r"every-exit-releases|release-after-loop|floor|plain-forward|no-early-exit|in-loop|receiver-from"),
                    r(_ch1_block, name="CH1"), r(_ch2_block, name="CH2"), r(PI3_NOTIFY, name="PI3"),
-                   r(P.pi6_action_identity, only=r"NOTIFY")),
+                   r(P.pi6_action_identity, only=r"NOTIFY"),
+                   r(S.su2_unsubscribe, only=r"compares-element-with-own-subscriber|identity-test|removes-exactly-the-identical-element|on_unsubscribe-iff-removed|floor")),
         "explanation": "Static decision: iter() registers a direct subscriber that forwards each notification once into a capacity-1 blocking (lossless) channel (IT1,IT2,CH1,CH2) fed by the ordinary notify phase (N2,N3,PI3,PI6); Exit is sent by the shutdown release, which every path to the end of the reducer thread passes after the last notification (SU3); next() passes pairs through and is fused, drop detaches (IT3,IT4; exhaustive).",
         "not_decided": ["blocking behaviour of dropping an iterator with an unread item (C13's finding)", "timing"],
         "exhaustive": True,
@@ -270,7 +281,7 @@ PROPS = {
         "not_decided": ["time-valued metrics", "remaining_queue*"],
     },
     "C19": {
-        "rules": R(IN.in1_no_process_wide_state, IN.in2_fresh_resources, IN.in3_handles_stay_home, IN.in4_public_subscribers_have_no_lifecycle_state,
+        "rules": R(IN.in1_no_process_wide_state, IN.in2_fresh_resources, IN.in3_handles_stay_home, IN.in4_public_subscribers_have_no_lifecycle_state, IN.in5_shared_callbacks_never_skip_on_contention,
                    Q.d1_same_store_dispatcher, ME.me9_one_metrics_object),
         "explanation": "Non-interference by separation, all static: no static/thread_local/unsafe/process-global API, third-party callees instance-scoped (IN1); every per-store resource is created in the constructor call (IN2,ME9); handles capture their own store's list, dispatchers wrap their own store, wrappers own their own channel, the name is only formatted (IN3,SU2,D1).",
         "not_decided": ["global state inside the dependencies", "CPU contention"],
